@@ -427,4 +427,4 @@ def _rewriters(ctx, F):
                 why.append("no has_only_whitespace_trivia guard covers the nodes")
             ctx.ob("R11.7", key, False, "the routine selects / drops / duplicates / re-parses child nodes (%s) but %s: a comment attached to an affected "
                    "node is lost or duplicated" % (", ".join(selecting[:3]), "; ".join(why)), g.where())
-    ctx.floor("routines rewriting a list of child nodes", n_rw, 3)
+    ctx.floor("routines rewriting a list of child nodes", n_rw, 2)
